@@ -187,7 +187,7 @@ def queries(tier):
                 includes=["models/redir_ini.h"], unwind=BACKSTOP, unwindset=KU, object_bits=12, funcs=["p_strtod", "p_strchomp"],
                 bounds={"numerals": "77 concrete decimal numerals of 1..30 characters (table harness/C16_strtod_kat.h from glibc strtod)", "tolerance": "relative 1e-14"}, timeout=T))
     qs.append(Q("getter_double_long_numerals", "harness/C16_strtod_kat.c", units=UNITS, models=MODELS,
-                defs=["__NO_CTYPE", "PLIBSYS_VERIF", "PLIBSYS_VERIF_INI_MAX_LINE=%d" % KL, "VM_STRBLK=%d" % (KL + 1), "VM_FILE_MAX=2048", "VM_NO_RECORDS", "VM_MEMSET_WORDS=0", "KAT_GETTER"],
+                defs=["__NO_CTYPE", "PLIBSYS_VERIF", "PLIBSYS_VERIF_INI_MAX_LINE=%d" % KL, "VM_STRBLK=%d" % (KL + 1), "VM_FILE_MAX=2048", "VM_REC2_ALWAYS=1", "KAT_GETTER"],
                 includes=["models/redir_ini.h"], export_local=True, remove_bodies=["p_list_foreach"], unwind=BACKSTOP, unwindset=KU, object_bits=12,
                 funcs=["p_ini_file_parse", "p_ini_file_parameter_double", "p_strtod"],
                 bounds={"file": "'[s]' + 43 lines 'xx=<numeral>' with concrete numerals of up to 30 characters", "P_INI_FILE_MAX_LINE": KL, "tolerance": "relative 1e-14"}, timeout=T))
